@@ -79,6 +79,44 @@ macro_rules! decmp {
     };
 }
 
+/// Polygon-family decoders on arbitrary part offsets with all-zero coordinates: the ring
+/// classification that follows decoding runs on constants, so the solver only has to deal with
+/// the offsets (the fully arbitrary variant above exhausts it). Empty rings (equal offsets),
+/// decreasing, negative and huge offsets are all inside.
+fn decode_polygon_offsets<S: TShape, const B: usize>() {
+    let mut m = Model::with_structure(S::CODE, &[1, 1]);
+    m.with_m = may_have_m(S::CODE);
+    let e = content_size(&m);
+    assert!(e <= B);
+    let mut img = [0u8; B];
+    put_i32_le(&mut img, 0, S::CODE);
+    put_i32_le(&mut img, 36, 2);
+    put_i32_le(&mut img, 40, 2);
+    let o0: i32 = kani::any();
+    let o1: i32 = kani::any();
+    put_i32_le(&mut img, 44, o0);
+    put_i32_le(&mut img, 48, o1);
+    let mut src = MemSource::with_len(&img, e);
+    let r = S::read_from(&mut src, e as i32);
+    kani::cover!(r.is_err(), "some offsets are rejected");
+    kani::cover!(r.is_ok(), "some offsets are accepted");
+    std::mem::forget(r);
+}
+// H: tier=quick; unwind=5; sym=2 part offsets (any i32) of a Polygon record with concrete counts (2 rings, 2 points) and zero coordinates; call=Polygon::read_from incl. ring classification; asserts=no panic for empty rings (equal offsets), decreasing / negative / huge offsets beyond the listed findings
+#[kani::proof]
+#[kani::unwind(5)]
+#[kani::stub(std::vec::Vec::with_capacity, crate::env::with_capacity_model)]
+fn c07_q_decode_polygon_offsets_zero_coords() {
+    decode_polygon_offsets::<Polygon, 84>();
+}
+// H: tier=thorough; unwind=9; sym=2 part offsets (any i32) of a PolygonZ record with concrete counts and zero coordinates; call=PolygonZ::read_from; asserts=as above
+#[kani::proof]
+#[kani::unwind(9)]
+#[kani::stub(std::vec::Vec::with_capacity, crate::env::with_capacity_model)]
+fn c07_t_decode_polygonz_offsets_zero_coords() {
+    decode_polygon_offsets::<PolygonZ, 148>();
+}
+
 macro_rules! dec {
     ($name:ident, $T:ty, $B:expr, $code:expr, $uw:expr) => {
         #[kani::proof]
